@@ -45,6 +45,31 @@ def run(ctx):
             t["backend"] = "torch"
         traces += res["traces"]
     validate(ctx, traces)
+    extra_markov_chain(ctx)
+
+
+def extra_markov_chain(ctx):
+    """pgmpy.models.MarkovChain (the base class of GibbsSampling) against spec/Trace_MChain.tla.  It is outside the listed properties:
+    the outcome is recorded in the evidence as an OBSERVATION and never becomes a verdict on C07."""
+    pl = [(hs, {"seed": ctx.seed * 10 + hs, "n": 12 if ctx.thorough else 5, "tid0": hs * 1000}) for hs in (0, 1)]
+    traces = []
+    notes = {}
+    for res in run_workers(ctx, "c07", "record_mc", pl):
+        traces += res["traces"]
+        for k, v in res["notes"].items():
+            notes[k] = notes.get(k, 0) + v
+    tf = os.path.join(ctx.work, "trace_mchain.json")
+    with open(tf, "w") as f:
+        json.dump([{"tid": t["tid"], "events": t["events"]} for t in traces], f)
+    r = ctx.tlc("Trace_MChain", CFG, env={"TRACE_FILE": tf}, tag="Trace_MChain", coverage=True)
+    out = {"traces": len(traces), "accepted": 0, "rejected": {}, "notes": notes}
+    for p in r.prints:
+        cl = p["v"]["clause"]
+        if cl == "ACCEPT":
+            out["accepted"] += 1
+        else:
+            out["rejected"][cl] = out["rejected"].get(cl, 0) + 1
+    ctx.extra["markov_chain_machine_observation"] = out
 
 
 def cross_compare(traces):
@@ -127,6 +152,22 @@ def selftest(ctx):
     if not {"kernel.not_the_cpd_column", "frame.likelihood_weight"} <= cl:
         raise Machinery(f"selftest: corrupted sampler traces not rejected: {cl}")
     ctx.violations.clear()
+    # the MarkovChain machine must reject a chain row that is not the state reached by the logged draws and a foreign transition row
+    mt = run_workers(ctx, "c07", "record_mc", [(0, {"seed": 4, "n": 3, "tid0": 0})])[0]["traces"]
+    a, b = json.loads(json.dumps(mt[0])), json.loads(json.dumps(mt[1]))
+    a["tid"], b["tid"] = 100, 101
+    ra = [e for e in a["events"] if e["ev"] == "row"][2]
+    k0 = sorted(ra["state"])[0]
+    ra["state"][k0] = 1 - ra["state"][k0] if ra["state"][k0] in (0, 1) else 0
+    db = next(e for e in b["events"] if e["ev"] == "draw")
+    db["p"] = list(reversed(db["p"])) if db["p"] != list(reversed(db["p"])) else [[1, 1]] + db["p"][1:]
+    tf = os.path.join(ctx.work, "trace_mchain_self.json")
+    with open(tf, "w") as f:
+        json.dump([{"tid": t["tid"], "events": t["events"]} for t in (mt[2], a, b)], f)
+    r = ctx.tlc("Trace_MChain", CFG, env={"TRACE_FILE": tf}, tag="Trace_MChain_self")
+    got = {p["tid"]: p["v"]["clause"] for p in r.prints}
+    if got.get(mt[2]["tid"]) != "ACCEPT" or got.get(100) != "row.not_the_chain_state" or got.get(101) not in ("draw.not_the_transition_row", "draw.impossible_next_state"):
+        raise Machinery(f"selftest: MarkovChain machine verdicts {got}")
 
 
 # =========================================================================== worker side
@@ -136,6 +177,125 @@ def _rat(x, D=None):
     D = D or (10 ** 6 if os.environ.get("VERIF_BACKEND", "numpy") == "numpy" else 4000)
     f = Fraction(float(x)).limit_denominator(D)
     return [f.numerator, f.denominator]
+
+
+def record_mc(payload):
+    """MarkovChain objects: construction events (valid and invalid transition models / start states), sample() and generate_sample()
+    with every sample_discrete call logged and re-ordered into chain order"""
+    import numpy as np
+    import importlib
+    M = importlib.import_module("pgmpy.models.MarkovChain")      # the MODULE (pgmpy.models.MarkovChain the attribute is the class)
+    from pgmpy.factors.discrete import State
+    rng = random.Random(payload["seed"])
+    calls = []
+    orig = M.sample_discrete
+
+    def logged(values, weights, size=1, seed=None):
+        r = orig(values, weights, size, seed)
+        calls.append((list(values), [float(x) for x in weights], [int(x) for x in np.array(r).ravel()]))
+        return r
+    M.sample_discrete = logged
+    out, notes = [], {}
+    try:
+        for k in range(payload["n"]):
+            events = []
+            nv = rng.choice([1, 2, 2, 3])
+            names = rng.sample(["alpha", "b", "node_c", "x1", "zz"], nv)
+            card = {v: rng.choice([2, 2, 3]) for v in names}
+            mc = M.MarkovChain()
+            for v in names:
+                mc.add_variable(v, card[v])
+                events.append({"ev": "add_variable", "v": v, "card": card[v]})
+
+            def row(c, bad=False):
+                den = rng.choice([4, 5, 10])
+                cuts = sorted(rng.sample(range(0, den + 1), c - 1)) if den + 1 >= c - 1 else [0] * (c - 1)
+                r_ = [b - a for a, b in zip([0] + cuts, cuts + [den])]
+                if bad:
+                    r_[0] += 1
+                return [[x, den] for x in r_]
+            for v in names:
+                for attempt in ("bad_sum", "missing_row", "good"):
+                    if attempt != "good" and rng.random() < 0.6:
+                        continue
+                    rows = [row(card[v], bad=(attempt == "bad_sum" and s_ == 0)) for s_ in range(card[v] - (1 if attempt == "missing_row" else 0))]
+                    as_dict = rng.random() < 0.5
+                    model = ({s_: {t_: rows[s_][t_][0] / rows[s_][t_][1] for t_ in range(card[v])} for s_ in range(len(rows))} if as_dict
+                             else [[x[0] / x[1] for x in r_] for r_ in rows])
+                    ok = True
+                    try:
+                        mc.add_transition_model(v, model if as_dict or len(rows) == card[v] else np.array(model + [[0.0] * card[v]])[:len(rows)])
+                    except ValueError:
+                        ok = False
+                    except Exception as ex:  # noqa
+                        events.append({"ev": "raised", "api": "add_transition_model", "exc": repr(ex)[:200]})
+                        ok = False
+                    events.append({"ev": "add_tm", "v": v, "rows": rows, "ok": ok})
+            start = {v: rng.randrange(card[v]) for v in names}
+            if rng.random() < 0.3:
+                bad = dict(start)
+                bad[names[0]] = card[names[0]]
+                ok = True
+                try:
+                    mc.set_start_state([State(v, s_) for v, s_ in bad.items()])
+                except ValueError:
+                    ok = False
+                events.append({"ev": "set_start", "state": bad, "ok": ok})
+            mc.set_start_state([State(v, s_) for v, s_ in start.items()])
+            events.append({"ev": "set_start", "state": start, "ok": True})
+            # ---- sample(): vectors are pre-drawn per (variable, state), in the iteration order of the transition models
+            size = rng.choice([4, 6])
+            del calls[:]
+            try:
+                df = mc.sample(size=size, seed=rng.choice([None, 7]))
+                blocks = {}
+                it = iter(calls)
+                for v in mc.transition_models.keys():
+                    for st in mc.transition_models[v]:
+                        blocks[(v, st)] = next(it)
+                cur = dict(start)
+                events.append({"ev": "row", "state": {v: int(df[v].iloc[0]) for v in names}})
+                for i in range(size - 1):
+                    for v in [s_.var for s_ in mc.state]:
+                        vals, w, vec = blocks[(v, cur[v])]
+                        to = vec[i]
+                        events.append({"ev": "draw", "v": v, "from": cur[v], "p": [_rat(x) for x in w], "to": int(to)})
+                        cur[v] = int(to)
+                    events.append({"ev": "row", "state": {v: int(df[v].iloc[i + 1]) for v in names}})
+            except Exception as ex:  # noqa
+                events.append({"ev": "raised", "api": "sample", "exc": repr(ex)[:200]})
+            # ---- generate_sample(): one logged draw per variable and step, already in chain order
+            mc.set_start_state([State(v, s_) for v, s_ in start.items()])
+            events.append({"ev": "set_start", "state": start, "ok": True})
+            del calls[:]
+            seed2 = rng.choice([None, 3])
+            try:
+                gen = list(mc.generate_sample(size=5, seed=seed2))
+                cur = dict(start)
+                ci = 0
+                tos = {}
+                for st_list in gen:
+                    for s_ in st_list:
+                        vals, w, vec = calls[ci]
+                        ci += 1
+                        events.append({"ev": "draw", "v": s_.var, "from": cur[s_.var], "p": [_rat(x) for x in w], "to": int(vec[0])})
+                        tos.setdefault((s_.var, cur[s_.var]), set()).add(int(vec[0]))
+                        cur[s_.var] = int(vec[0])
+                    events.append({"ev": "row", "state": {s_.var: int(s_.state) for s_ in st_list}})
+                if seed2 is not None:
+                    # observation: with a seed every draw re-seeds numpy, so each (variable, state) always moves to the same next state
+                    notes["seeded_generate_sample_runs"] = notes.get("seeded_generate_sample_runs", 0) + 1
+                    if all(len(x) == 1 for x in tos.values()):
+                        notes["seeded_generate_sample_runs_with_a_deterministic_chain"] = notes.get("seeded_generate_sample_runs_with_a_deterministic_chain", 0) + 1
+            except Exception as ex:  # noqa
+                events.append({"ev": "raised", "api": "generate_sample", "exc": repr(ex)[:200]})
+            for e in events:
+                for key, dv in (("v", ""), ("card", 0), ("rows", []), ("ok", True), ("state", {}), ("from", 0), ("p", []), ("to", 0), ("api", "")):
+                    e.setdefault(key, dv)
+            out.append({"tid": payload["tid0"] + k, "events": events})
+    finally:
+        M.sample_discrete = orig
+    return {"traces": out, "notes": notes}
 
 
 def record(payload):
